@@ -85,6 +85,10 @@ func psSources(j int, pc psCase) (origin, partial, probe string) {
 		// every other case with two declarations writes them as one parenthesised group
 		grouped := hasSub && pc.Replace != "none" && len(pc.Omit)%2 == 0
 		ind := ""
+		if j%5 == 2 {
+			// every fifth partial declaration lies below a //line directive (a file emitted by a preprocessor)
+			p.WriteString("//line partial.tmpl:3\n\n")
+		}
 		if grouped {
 			p.WriteString("type (\n")
 			ind = "\t"
